@@ -13,11 +13,11 @@ fi
 cd /verif
 git -C /repo apply $D/patch.diff || { echo "patch does not apply"; exit 2; }
 S=$(date +%s)
-OUT=$(VERIF_REPLAY_DIR=/tmp/seeded-replays ./check $P --tier $TIER 2>&1); RC=$?
+OUT=$(VERIF_EVIDENCE_DIR=/tmp/seeded-evidence VERIF_REPLAY_DIR=/tmp/seeded-replays ./check $P --tier $TIER 2>&1); RC=$?
 E=$(date +%s)
 git -C /repo checkout -- .
 echo "$OUT" | grep -E "^violation in run|^minimised|^VIOLATION|^note:|^KNOWN|^C[0-9]+:" | cut -c1-400
 echo "rc=$RC  $((E-S))s"
 echo "$OUT" | grep -E "^violation in run|^minimised|^VIOLATION|^note:" | cut -c1-600 > $D/check_output.txt
 echo "rc=$RC tier=$TIER seconds=$((E-S))" >> $D/check_output.txt
-rm -rf /tmp/seeded-replays
+rm -rf /tmp/seeded-replays /tmp/seeded-evidence
